@@ -24,9 +24,10 @@ type c13Op struct {
 }
 
 type c13Desc struct {
-	Kinds   []string `json:"kinds"` // per extension: "ext" | "int"
-	Ops     []c13Op  `json:"ops"`
-	Special string   `json:"special,omitempty"` // overflow-external | overflow-internal
+	Kinds    []string `json:"kinds"` // per extension: "ext" | "int"
+	Ops      []c13Op  `json:"ops"`
+	Special  string   `json:"special,omitempty"`  // overflow-external | overflow-internal
+	Snapshot bool     `json:"snapshot,omitempty"` // init-caching mode
 }
 
 var c13EventVariants = map[string]string{
@@ -73,6 +74,9 @@ func genC13(tier string, seed int64) []Case {
 	add := func(d c13Desc) {
 		b, _ := json.Marshal(d)
 		id := "C13/" + vh.Digest(b) + "/" + fmt.Sprintf("%v/%d", d.Kinds, len(d.Ops)) + d.Special
+		if d.Snapshot {
+			id += "/snapshot"
+		}
 		if seen[id] {
 			return
 		}
@@ -106,7 +110,10 @@ func genC13(tier string, seed int64) []Case {
 		}
 		for _, feat := range []string{"accountId", "bogus", " accountId , other", "other,accountId", "ACCOUNTID"} {
 			add(c13Desc{Kinds: []string{kind}, Ops: []c13Op{{Ext: 0, Op: "register", Arg: "I", Feat: feat}, {Ext: 0, Op: "next"}}})
+			// the same in init-caching (snapshot) mode, where the function metadata takes another path
+			add(c13Desc{Snapshot: true, Kinds: []string{kind}, Ops: []c13Op{{Ext: 0, Op: "register", Arg: "I", Feat: feat}, {Ext: 0, Op: "next"}}})
 		}
+		add(c13Desc{Snapshot: true, Kinds: []string{kind, "ext"}, Ops: []c13Op{{Ext: 0, Op: "register", Arg: "IS", Feat: "accountId"}, {Ext: 1, Op: "register", Arg: "I"}, {Ext: 0, Op: "next"}, {Ext: 1, Op: "exiterr"}}})
 	}
 	// names: empty, colliding across kinds, UTF-8, long
 	for _, nm := range []string{"<empty>", "<ext0>", "<int-dup>", "ünï-ñame", "<long>"} {
@@ -146,6 +153,7 @@ func genC13(tier string, seed int64) []Case {
 			}
 			d.Ops = append(d.Ops, op)
 		}
+		d.Snapshot = r.Intn(5) == 0
 		add(d)
 	}
 	return cases
@@ -181,7 +189,7 @@ func runC13(c *Ctx, d c13Desc) {
 		}
 		exts[i] = e
 	}
-	w, err := NewWorld(vh.Config{TimeoutMs: 20000, Extensions: extFiles, FunctionName: "fn-c13", FunctionVersion: "7", Handler: "h.handler", AccountID: "123456789012"})
+	w, err := NewWorld(vh.Config{TimeoutMs: 20000, Extensions: extFiles, FunctionName: "fn-c13", FunctionVersion: "7", Handler: "h.handler", AccountID: "123456789012", Snapshot: d.Snapshot})
 	if err != nil {
 		c.Inconclusive("harness: " + err.Error())
 		return
@@ -487,6 +495,40 @@ func runC13(c *Ctx, d c13Desc) {
 		} else {
 			time.Sleep(3 * time.Millisecond)
 			c.Check(!e.parked.Done(), "subscriptions_as_registered", "C13/non-subscriber-served", "an extension without an accepted INVOKE subscription got an event (partial subscription kept after a refused register?)", e.name)
+		}
+	}
+	// ---- variant: an INVOKE subscriber reports an exit error while it is RUNNING (it holds the event, has not asked for next) ----
+	if len(d.Ops)%3 == 2 {
+		var run []*c13Ext
+		for _, e := range exts {
+			if e.parked != nil && contains(e.events, "INVOKE") && e.parked.Done() {
+				run = append(run, e)
+			}
+		}
+		if len(run) > 0 {
+			e := run[len(trace)%len(run)]
+			name := e.name
+			stateOf := func() string {
+				for _, x := range w.E.State().Extensions {
+					if x.Name == name {
+						return x.State.Name
+					}
+				}
+				return "?"
+			}
+			if r := e.pt.ExtExitError(e.id, "Extension.WhileRunning"); c.Check(r.Status == 202, "exit_error_any_time", fmt.Sprintf("C13/running-exit-error/%s/%d-%s", e.kind, r.Status, r.Etype), "exit error report of a running extension was refused", nil) {
+				c.Check(stateOf() == "ExitError", "state_matches_model", fmt.Sprintf("C13/state/%s-vs-ExitError/%s-running", stateOf(), e.kind), "an accepted exit error report of a running "+e.kind+" extension did not put it into ExitError", name)
+				r2 := e.pt.ExtInitError(e.id, "Extension.TooLate")
+				c.Check(r2.Status == 403 && r2.Etype == "Extension.InvalidExtensionState", "exit_error_final", fmt.Sprintf("C13/exit-error-not-final/%s/initerr-%d-%s", e.kind, r2.Status, r2.Etype), "an init error report after an accepted exit error report was not refused", name)
+				r3 := e.pt.ExtNextID(e.id)
+				c.Check(r3.Status == 403 && r3.Etype == "Extension.InvalidExtensionState", "exit_error_final", fmt.Sprintf("C13/exit-error-not-final/%s/next-%d-%s", e.kind, r3.Status, r3.Etype), "next after an accepted exit error report was not refused", name)
+				c.Check(stateOf() == "ExitError", "exit_error_final", fmt.Sprintf("C13/exit-error-not-final/%s/state2-%s", e.kind, stateOf()), "ExitError state was left by refused calls", name)
+			}
+			c.SetTrace(strings.Join(trace, " ")+" running-exiterr", true)
+			if c.WantSample || c.Violated() {
+				c.SetSample(sampleLog(w, 100))
+			}
+			return
 		}
 	}
 	rt.Respond(ev.ReqID(), []byte("done"), nil)
